@@ -684,7 +684,7 @@ def coq_case(k, case):
     tname = f"Tr{k}"
     def info(me, clone):
         return (f"{{| mi_trait := {coq_str(tname)}; mi_method := {coq_str(me)}; mi_has_default := false; mi_partial_by_default := false; "
-                f"mi_has_unmock_arm := false; mi_out_clone := {'true' if clone else 'false'} |}}")
+                f"mi_has_unmock_arm := false; mi_out_clone := {'true' if clone else 'false'}; mi_more_leaves := 0 |}}")
     methods = (f"[{{| me_info := {info('m', not case['ret_nc'])}; me_sig := [{'; '.join(coq_ty(t) for t in case['sig'])}] |}}; "
                f"{{| me_info := {info('aux', True)}; me_sig := [] |}}]")
     pats = []
